@@ -38,7 +38,7 @@ ASSUMPTIONS = [
 MIN = {
     "quick": {"same_operation_same_result": 60, "multi_gene_equals_single": 20, "failing_gene_isolated": 8,
               "database_untouched": 150, "evidence_untouched": 80, "hash_seed_independent": 10,
-              "minor_candidate_isolated": 20, "minor_repeat_same": 8},
+              "minor_candidate_isolated": 20, "minor_repeat_same": 30},
     "thorough": {"same_operation_same_result": 800, "multi_gene_equals_single": 250, "failing_gene_isolated": 100,
                  "database_untouched": 1800, "evidence_untouched": 800, "hash_seed_independent": 40,
                  "minor_candidate_isolated": 300, "minor_repeat_same": 60},
@@ -59,7 +59,7 @@ def plan(tier, seed):
         cases.append({"kind": "history_shipped", "seed": seed, "k": k})
     for k in range(8 if tier == "quick" else 120):
         cases.append({"kind": "simple_multi", "seed": seed, "k": k})
-    for k in range(10 if tier == "quick" else 250):
+    for k in range(20 if tier == "quick" else 250):
         cases.append({"kind": "minor_isolation", "seed": seed, "k": k})
     return cases
 
@@ -662,8 +662,14 @@ def _minor_isolation_case(res, case):
     try:
         with util.time_limit(60):
             cns = estimate_cn(g, prof, s.coverage, "any")
+            cns = sorted(cns, key=lambda c: c.score)[:3]
+            if len(cns) == 1:
+                # a competing structure with one more gene copy, so that the candidate list always mixes structures
+                from aldy.solutions import CNSolution
+
+                cns.append(CNSolution(g, cns[0].score + 0.2, list(cns[0].solution.elements()) + ["1"]))
             majors = []
-            for c in sorted(cns, key=lambda c: c.score)[:3]:
+            for c in cns:
                 majors += estimate_major(g, s.coverage, c, "any")[:2]
     except (util.Slow, RecursionError):
         res.count("skipped_slow")
@@ -715,6 +721,22 @@ def _minor_isolation_case(res, case):
                 seen[k_][arr] = v
             if first_result is None:
                 first_result = (arr, dict(current))
+        # calls made on the evidence object that earlier calls had used, repeated on a sample loaded afresh: nothing
+        # a stage call leaves behind may change a later call
+        done_arrs = [a for a in arrangements[:40] if any(a in by for by in seen.values())]
+        for arr in rng.sample(done_arrs[1:], min(6, max(0, len(done_arrs) - 1))):
+            current.clear()
+            try:
+                with util.time_limit(60):
+                    estimate_minor(g, Sample(g, prof, bam).coverage, [majors[i] for i in arr], "any")
+            except (util.Slow, RecursionError):
+                res.count("skipped_slow")
+                continue
+            used = {k_: by[arr] for k_, by in seen.items() if arr in by}
+            res.check("minor_repeat_same", dict(current) == used,
+                      "a refinement call on evidence that earlier calls had used differs from the same call on the "
+                      "sample loaded afresh", arrangement=list(arr), on_used_evidence=str(used)[:300],
+                      on_fresh_sample=str(dict(current))[:300], **desc)
         # the very first call again, on the evidence object all the other calls have used in between, and on a
         # sample loaded afresh from the same file: a stage call must not leave anything behind on the evidence
         if first_result is not None:
